@@ -99,6 +99,27 @@ def dryCase (table conn l r fl fr fo limit : String) (obs : List String) (tag : 
         if cnt > ((parseArr? unres).map decisionNodes |>.getD 0) then "count>nodes" else "count=nodes"] }
   | _, _, _, _, _, _, _, _ => Verdict.bad "args"
 
+/-- cofactor of pointer `p` on variable `d` -/
+def cof (A : Arr) (n p d : Nat) (b : Bool) : Nat :=
+  if varOf A n p == d then (let nd := nodeAt A p; if b then nd.high else nd.low) else p
+
+/-- containment oracle for more than `maxTT` variables, independent of the apply model: every path of `A` to
+    the one-terminal stays inside `B`, i.e. the side-by-side walk never reaches the pair (true, false) -/
+def containedWalk (A B : Arr) (n : Nat) : Nat → Nat → Nat → Std.HashSet (Nat × Nat) → Bool × Std.HashSet (Nat × Nat)
+  | 0, _, _, seen => (false, seen)
+  | fuel + 1, p, q, seen =>
+    if p == 0 || q == 1 then (true, seen)
+    else if p == 1 && q == 0 then (false, seen)
+    else if seen.contains (p, q) then (true, seen)
+    else
+      let d := min (varOf A n p) (varOf B n q)
+      if d ≥ n then (false, seen) else
+      let r1 := containedWalk A B n fuel (cof A n p d true) (cof B n q d true) (seen.insert (p, q))
+      if !r1.1 then r1 else containedWalk A B n fuel (cof A n p d false) (cof B n q d false) r1.2
+
+def containedIn (A B : Arr) : Bool :=
+  (containedWalk A B (numVars A) (numVars A + 2) (root A) (root B) {}).1
+
 def showOrd : Option Ordering → String
   | some .lt => "less"
   | some .eq => "equal"
@@ -118,16 +139,17 @@ def handle (key : String) (ins obs : List String) : Verdict :=
       let n := numVars A
       let expected :=
         if numVars B != n then "none"
-        else if n > maxTT then res
         else
-          let ta := ttOf A n; let tb := ttOf B n
-          let ab := (List.range (2 ^ n)).all fun i => !ta[i]! || tb[i]!
-          let ba := (List.range (2 ^ n)).all fun i => !tb[i]! || ta[i]!
+          let (ab, ba) :=
+            if n > maxTT then (containedIn A B, containedIn B A)
+            else
+              let ta := ttOf A n; let tb := ttOf B n
+              ((List.range (2 ^ n)).all fun i => !ta[i]! || tb[i]!, (List.range (2 ^ n)).all fun i => !tb[i]! || ta[i]!)
           if ab && ba then "equal" else if ab then "less" else if ba then "greater" else "none"
       { agree := model == res, model,
         fail := if res == expected then none else some ("cmp_implies:expected-" ++ expected),
         nontrivial := A.size > 2 && B.size > 2 && numVars B == n,
-        tags := ["cmp", res, if numVars B != n then "vars-differ" else "vars-equal"] }
+        tags := ["cmp", res, if numVars B != n then "vars-differ" else "vars-equal", if n > maxTT then "n>12" else if n ≥ 6 then "n6-12" else "n<6"] }
     | _, _, _ => Verdict.bad "args"
   | _, _ => Verdict.bad ("key " ++ key)
 
